@@ -877,6 +877,86 @@ def part_b(ck, S, g, exe_rel, exe_fuzz):
       stats['asan_runs'] += 1
     return r
 
+  # ---- deterministic differential sweep: every element context, minimal instance, then every optional attribute alone.
+  # Finds systematically where the typed reader is stricter than the schema (attribute required by the reader but optional
+  # in the schema; schema type double, reader wants int; ...), independent of the random documents below.
+  def conforming_verdict(doc, rb, xml, labels, where):
+    if rb.parse == 1:
+      labels.append('b:conf:accepted')
+      return None
+    lay = layer_of(rb.perr)
+    labels.append('b:conf:rejected-' + lay)
+    if lay == 'semantic':
+      return None
+    msg, el = norm_msg(rb.perr)
+    fp = 'conforming-rejected:%s@%s' % (re.sub(r'\d+', 'N', msg)[:90], el)
+    rep_doc = doc
+    if ck.known(fp) is None and fp not in S.findings and S.minimized < 12:
+      S.minimized += 1
+      d2, memo = doc.clone()
+      tgt = re.sub(r'\d+', 'N', msg)
+
+      def pred(x):
+        r = fast.run(x, parse_only=True)
+        return (not r.died) and r.parse == 0 and re.sub(r'\d+', 'N', norm_msg(r.perr)[0]) == tgt
+      rep_doc = minimize(d2, d2.root, pred)
+    S.finding(fp, 'schema-conforming document rejected with a schema/type-layer message: %r (%s)' % (rb.perr[:300], where),
+              dict(xml=show(rep_doc.render()), message=rb.perr, conformance_errors=g.doc_errors(rep_doc)))
+    return msg
+
+  sweep_rng = random.Random(ck.seed * 31 + 5)
+  nsweep = 0
+  for ctx in g.ctx_list:
+    if ctx is g.root:
+      continue
+    doc = g.new_doc(sweep_rng)
+    node = g.graft(sweep_rng, doc, ctx, dense=False, minimal=True)
+    added = []
+    for _ in range(8):      # complete the attributes the reader insists on, recording each as a finding
+      xml = doc.render()
+      rb = run(xml, parse_only=True)
+      nsweep += 1
+      labels = ['b0:minimal']
+      if handle_common(S, rb, xml, 'schema-doc/minimal'):
+        break
+      msg = conforming_verdict(doc, rb, xml, labels, 'minimal instance of ' + ctx.key)
+      ck.case(nontrivial=False, labels=labels)
+      m = re.search(r"required attribute missing: '(\w+)'", msg or '')
+      if not m:
+        break
+      tgt = [n for n in doc.root.walk() if n.ctx is not None and m.group(1) in n.ctx.attr and not n.has(m.group(1))
+             and n.tag == norm_msg(rb.perr)[1]]
+      if not tgt:
+        break
+      g._add_attr(sweep_rng, tgt[0], m.group(1), doc)
+      added.append(m.group(1))
+    if rb.died or rb.parse != 1:
+      continue
+    for a in ctx.attrs:
+      if node.has(a.name):
+        continue
+      d2, memo = doc.clone()
+      n2 = memo[id(node)]
+      v = g.value(sweep_rng, ctx, a, d2)
+      if v is None:
+        continue
+      if a.type in ('double', 'float') and not any(f in a.facets for f in ('min', 'max', 'positive')):
+        toks = v.split()
+        toks[-1] = '0.5'
+        v = ' '.join(toks)
+      n2.set(a.name, v)
+      if not g.repair(sweep_rng, n2, d2) or g.doc_errors(d2):
+        continue
+      xml = d2.render()
+      r1 = run(xml, parse_only=True)
+      nsweep += 1
+      labels = ['b0:one-attribute']
+      if handle_common(S, r1, xml, 'schema-doc/one-attribute'):
+        continue
+      conforming_verdict(d2, r1, xml, labels, 'attribute %s added to a minimal %s' % (a.name, ctx.key))
+      ck.case(nontrivial=False, labels=labels)
+  stats['b0_documents'] = nsweep
+
   # ---- order of violation tests: every site of the small kinds once, then samples of the big kinds
   order_rng = random.Random(ck.seed)
   sweep = [s for k in gs.KINDS if k not in BIG_KINDS for s in g.sites[k]]
@@ -911,28 +991,10 @@ def part_b(ck, S, g, exe_rel, exe_fuzz):
     base_bad = handle_common(S, rb, base_xml, 'schema-doc/conforming')
     if base_bad:
       labels.append('b:conf:crash-or-escape')
-    elif rb.parse == 1:
-      labels.append('b:conf:accepted')
+    else:
+      conforming_verdict(doc, rb, base_xml, labels, 'random document')
       if rb.compile == 1:
         labels.append('b:conf:compiled')
-    else:
-      lay = layer_of(rb.perr)
-      labels.append('b:conf:rejected-' + lay)
-      if lay != 'semantic':
-        msg, el = norm_msg(rb.perr)
-        fp = 'conforming-rejected:%s@%s' % (re.sub(r'\d+', 'N', msg)[:90], el)
-        rep_doc = doc
-        if ck.known(fp) is None and fp not in S.findings and S.minimized < 12:
-          S.minimized += 1
-          d2, memo = doc.clone()
-          tgt = re.sub(r'\d+', 'N', msg)
-
-          def pred(x):
-            r = fast.run(x, parse_only=True)
-            return (not r.died) and r.parse == 0 and re.sub(r'\d+', 'N', norm_msg(r.perr)[0]) == tgt
-          rep_doc = minimize(d2, d2.root, pred)
-        S.finding(fp, 'schema-conforming document rejected with a schema/type-layer message: %r' % rb.perr[:300],
-                  dict(xml=show(rep_doc.render()), message=rb.perr, conformance_errors=g.doc_errors(rep_doc)))
     # ---- the violation
     vdoc, memo = doc.clone()
     vnode = memo[id(node)]
